@@ -162,3 +162,22 @@ PROPS['C10'] = dict(
                                  "construction and the harness watchdog / memory limit is the supporting check",
                                  "client read paths (HELO/PONG/ack bytes) are covered by the client model, see C05/C04"],
 )
+
+PROPS['C12'] = dict(
+    lean_modules=['FluentVerif.Props.C12'],
+    theorems=['FV.b64dec_enc', 'FV.C12_injective', 'FV.C12_assign', 'FV.C12_stable', 'FV.C12_idempotent',
+              'FV.C12_carried_Message', 'FV.C12_carried_MessageExt', 'FV.C12_carried_Forward', 'FV.C12_carried_Packed'],
+    suites=[dict(suite='cid', n=dict(quick=2000, thorough=40000), shards=dict(quick=1, thorough=8), trivial=r'^-$')],
+    rule="cid suite: for each of the four message types with options nil / empty / size-only / caller-supplied chunk: "
+         "Chunk() twice, then MarshalMsg, msgp.Encode and GetChunk; plus a concurrent stress (16 goroutines x 2000 ids quick, "
+         "x 40000 thorough) counting duplicates and malformed ids. distinct = distinct (op,args) and, for generated ids, "
+         "distinct ids; non-trivial = every line",
+    explanation="b64dec_enc (base64 decode inverts encode for every length) gives C12_injective: two ids coincide iff the two "
+                "16-byte draws coincide on the 122 unmasked bits; C12_assign / C12_stable / C12_idempotent describe Chunk() "
+                "for every option state; C12_carried_T: the option map the specification parser reads back from the encoder "
+                "holds exactly the returned id. Correspondence: the draw is recovered from the real id by the driver's base64 "
+                "decoder, checked for UUIDv4 shape, and chunkCall on it must reproduce the real id and options.",
+    assumptions=["distinctness of ids reduces to distinctness of crypto/rand draws (google/uuid random pool, mutex-protected): "
+                 "assumed, supported by the concurrent duplicate count",
+                 "uuid.New / base64.StdEncoding as modelled"],
+)
